@@ -211,6 +211,7 @@ class Simplifier(walkers.dag.DagWalker):
                             variable.is_variable_exp()
                             and variable.variable() in vars
                             and variable.variable() not in value_free_vars
+                            and variable.type.is_compatible(value.type)
                         ):
                             check_equality_simplification = True
                             new_arg = self.manager.And(
